@@ -17,9 +17,6 @@ import vlib, tlagraph
 PROPERTIES = ["C05"]
 SPEC = "ReadyQueue"
 
-MISMATCH = re.compile(r'<<\s*"MISMATCH",\s*(\d+),\s*"([\w-]+)",\s*(.*?)\s*>>\n(?=<<|[A-Z]|\s*$)', re.S)
-
-
 def monitor(ctx, lock, label, trace, timeout=1500):
     """Run the property monitor on an event log. Returns (lines, [(line, kind, detail)])."""
     r = ctx.tlc(SPEC, "Trace_RQMon.cfg", dfs=True, files={"trace.ndjson": trace}, timeout=timeout, heap="6g", name="mon-" + label)
@@ -27,7 +24,11 @@ def monitor(ctx, lock, label, trace, timeout=1500):
         n = sum(1 for x in f if x.strip())
     if r.depth != n + 1:
         raise vlib.Infra("monitor did not consume the whole trace %s (%d of %d)" % (label, r.depth - 1, n))
-    mism = [(int(a), k, " ".join(d.split())) for a, k, d in MISMATCH.findall(r.out)]
+    tup = vlib.tuples(r.out, "MISMATCH")
+    if len(tup) != r.out.count('"MISMATCH"') or any(len(t) < 3 or not isinstance(t[0], int) for t in tup):
+        raise vlib.Infra("monitor output of %s could not be parsed reliably (%d tuples, %d markers)"
+                         % (label, len(tup), r.out.count('"MISMATCH"')))
+    mism = [(t[0], str(t[1]), " ".join(str(x) for x in t[2:])) for t in tup]
     return n, mism
 
 
@@ -58,32 +59,41 @@ def run(ctx, pid):
     rng = ctx.rng
     lock = threading.Lock()
     exe = ctx.build("readyqueue")
-    pool = concurrent.futures.ThreadPoolExecutor(max_workers=4)
+    pool = concurrent.futures.ThreadPoolExecutor(max_workers=6)
     total = {"hist": 0, "walks": 0, "steps": 0, "drift": 0, "events": 0}
     samples, notes = [], []
     mismatches = []     # (source, trace, line, kind, detail)
 
     # ------------------------------------------------------------------ 1. design level
-    mc_cfgs = ["MC_ReadyQueue.cfg", "MC_RQ_2p.cfg", "MC_RQ_ovf.cfg"] if quick else \
+    # (quick: the base configuration is checked by Live_ReadyQueue.cfg, which carries the invariants too)
+    mc_cfgs = ["MC_RQ_2p.cfg", "MC_RQ_ovf.cfg"] if quick else \
               ["MC_ReadyQueue.cfg", "MC_RQ_2p.cfg", "MC_RQ_ovf.cfg", "MC_RQ_3w.cfg", "MC_RQ_steal.cfg", "MC_RQ_t.cfg"]
     f_mc = [pool.submit(ctx.tlc_must_hold, SPEC, c, module="MC_ReadyQueue", timeout=600 if quick else 2400,
                         workers=3 if quick else 6) for c in mc_cfgs]
     f_live = pool.submit(ctx.tlc_must_hold, SPEC, "Live_ReadyQueue.cfg" if quick else "Live_RQ_t.cfg", module="MC_ReadyQueue",
                          timeout=600 if quick else 2400, workers=2)
     f_def = {d: pool.submit(ctx.tlc, SPEC, "Def_%s.cfg" % d, module="MC_ReadyQueue", timeout=600, expect_fail=True, workers=2)
-             for d in (("NoSignal", "StealNoAdvance") if quick else ("NoSignal", "StealNoAdvance", "ParkedLeak", "ParkNoRecheck"))}
+             for d in (("NoSignal",) if quick else ("NoSignal", "StealNoAdvance", "ParkedLeak", "ParkNoRecheck"))}
 
     # ------------------------------------------------------------------ 2. free-running histories
-    def stress(mode, n, seed):
+    def stress(n, seed):
+        sts, files = {}, []
+        for i, mode in enumerate(("rq", "disp")):
+            with lock:
+                t = ctx.tmp("stress-%s.ndjson" % mode)
+            p = ctx.run([exe, "stress", mode, "0", str(n), str(seed + i), t], timeout=900)
+            sts[mode] = json.loads(p.stdout.strip().splitlines()[-1])
+            files.append(t)
         with lock:
-            t = ctx.tmp("stress-%s.ndjson" % mode)
-        p = ctx.run([exe, "stress", mode, "0", str(n), str(seed), t], timeout=900)
-        st = json.loads(p.stdout.strip().splitlines()[-1])
-        nl, mism = monitor(ctx, lock, "stress-" + mode, t, timeout=2400)
-        return mode, st, t, nl, mism
+            t = ctx.tmp("stress-all.ndjson")
+        with open(t, "w") as out:
+            for fn in files:
+                with open(fn) as f:
+                    out.write(f.read())
+        nl, mism = monitor(ctx, lock, "stress", t, timeout=2400)
+        return sts, t, nl, mism
 
-    nh = 150 if quick else 1500
-    f_stress = [pool.submit(stress, m, nh, ctx.seed * 100 + i) for i, m in enumerate(("rq", "disp"))]
+    f_stress = pool.submit(stress, 100 if quick else 1500, ctx.seed * 100)
 
     # ------------------------------------------------------------------ 3. spec -> code: edge cover, puppet replay
     def replay(tag, nworkers, nsel):
@@ -111,7 +121,41 @@ def run(ctx, pid):
             cdrift = "step log rejected at line %d of %d" % (conf.depth, st["step_lines"])
         return tag, len(walks), len(g.nodes), g.nedges, beh, st, evs, nl, mism, cdrift
 
-    plans = [("q", 2, 1200)] if quick else [("q", 2, 10 ** 9), ("a", 2, 6000), ("b", 3, 6000)]
+    # ------------------------------------------------------------------ 4. spec -> code: macro operations, real capacities
+    def seq(nwalks, per_walk):
+        r = ctx.tlc(SPEC, "Gen_RQSeq.cfg", module="Gen_RQSeq", simulate="num=%d" % nwalks, depth=14, deadlock_check=False,
+                    timeout=1500, workers=1, name="gen-seq")
+        allb = vlib.parse_sim_behaviours(r.out)
+        # TLC prints every successor at depth D of each walk: keep a few per walk prefix
+        groups = {}
+        for b in allb:
+            groups.setdefault(json.dumps(b[:-1]), []).append(b)
+        beh = []
+        for k in sorted(groups):
+            beh += vlib.sample(rng, groups[k], per_walk)
+        if len(beh) < nwalks:
+            raise vlib.Infra("macro-operation generator produced too little (%d)" % len(beh))
+        with lock:
+            bfile = ctx.tmp("beh-seq.ndjson")
+            evs = ctx.tmp("events-seq.ndjson")
+            ops = ctx.tmp("ops-seq.ndjson")
+        vlib.write_ndjson(bfile, beh)
+        p = ctx.run([exe, "seq", "3", bfile, evs, ops], timeout=900)
+        st = json.loads(p.stdout.strip().splitlines()[-1])
+        nl, mism = monitor(ctx, lock, "seq", evs, timeout=2400)
+        conf = ctx.tlc(SPEC, "Trace_RQSeq.cfg", module="Trace_RQSeq", dfs=True, files={"trace.ndjson": ops}, timeout=2400, heap="6g",
+                       expect_fail=True, name="conf-seq")
+        cdrift = None
+        if conf.violated or conf.error:
+            cdrift = "conformance spec failed at op line %d: %s" % (conf.depth, (conf.violated or conf.error)[:200])
+        elif conf.depth != st["op_lines"] + 1:
+            row = vlib.read_ndjson(ops)[conf.depth - 1] if conf.depth - 1 < st["op_lines"] else {}
+            cdrift = "op log rejected at line %d of %d (%s by w%s, n=%s)" % (conf.depth, st["op_lines"], row.get("op"), row.get("w"), row.get("n"))
+        return beh, st, evs, nl, mism, cdrift
+
+    f_seq = pool.submit(seq, 20 if quick else 400, 2)
+
+    plans = [("q", 2, 1000)] if quick else [("q", 2, 10 ** 9), ("a", 2, 6000), ("b", 3, 6000)]
     f_replay = [pool.submit(replay, *p) for p in plans]
 
     # ------------------------------------------------------------------ collect
@@ -140,12 +184,25 @@ def run(ctx, pid):
         if len(samples) < 3:
             samples.append({"walk_" + tag: [[s["a"]] + s["args"] for s in beh[0]]})
         mismatches += [("puppet replay of ReadyQueue.tla edge cover (%s)" % tag, evs, a, k, d) for a, k, d in mism]
-    for f in f_stress:
-        mode, st, t, nl, mism = f.result()
-        total["hist"] += st["histories"]
-        total["events"] += nl
-        ctx.log("stress %s: %d histories, %d events, monitor mismatches %d" % (mode, st["histories"], nl, len(mism)))
-        mismatches += [("free-running stress (%s)" % mode, t, a, k, d) for a, k, d in mism]
+    beh, st, evs, nl, mism, cdrift = f_seq.result()
+    total["hist"] += st["behaviours"]
+    total["events"] += nl
+    if cdrift:
+        conf_drift.append("seq: " + cdrift)
+    if st["spills"] == 0 or st["grows"] == 0 or st["multi_item_steals"] == 0:
+        raise vlib.Infra("macro-operation replays did not reach spill/grow/multi-item steal: %s" % st)
+    ctx.log("macro-ops: %d behaviours, %d operations on real rings (256/64): %d spills, %d grows, %d multi-item steals, skipped takes %d, "
+            "conformance %s, monitor mismatches %d" % (st["behaviours"], st["ops"], st["spills"], st["grows"], st["multi_item_steals"],
+                                                       st["skipped_takes"], cdrift or "ok", len(mism)))
+    samples.append({"macro_ops": [[o["op"], o["w"], o["n"]] for o in beh[0]]})
+    seq_stats = st
+    mismatches += [("sequential macro-operation replay (RQSeq.tla, real capacities)", evs, a, k, d) for a, k, d in mism]
+    sts, t, nl, mism = f_stress.result()
+    total["hist"] += sum(x["histories"] for x in sts.values())
+    total["events"] += nl
+    ctx.log("stress: %d histories with harness workers + %d with the real dispatcher, %d events, monitor mismatches %d"
+            % (sts["rq"]["histories"], sts["disp"]["histories"], nl, len(mism)))
+    mismatches += [("free-running stress (harness workers / real dispatcher)", t, a, k, d) for a, k, d in mism]
     pool.shutdown()
 
     st_, tr_ = ctx.states()
@@ -156,6 +213,7 @@ def run(ctx, pid):
                    "harness workers and with the real dispatcher; every event log judged by TLC (Trace_RQMon.tla)",
            "edge_cover_walks_replayed": total["walks"], "atomic_steps_replayed": total["steps"], "replay_drift": total["drift"],
            "conformance_drift": conf_drift, "events_validated": total["events"], "monitor_mismatches": len(mismatches),
+           "macro_ops": {k: seq_stats[k] for k in ("behaviours", "ops", "spills", "grows", "multi_item_steals", "skipped_takes")},
            "notes": notes, "exhaustive": False}
     assumptions = ["pushLocal is called by the owning worker only (as worker.reschedule does)",
                    "puppet replays cover the schedules in which a signalled worker re-acquires parkMu before any other thread "
